@@ -338,4 +338,33 @@ var checks = map[string]Check{
 			return []Job{j}
 		},
 	},
+	"C13": {
+		Level:       "model_checking",
+		Rule:        "client session created by Peer.Dial against an in-memory listener served by the real accept loop; fault alphabet {loss while idle (break / remote close), while awaiting a reply, during the request write at every byte offset, noticed by reader and writer at once} x redial budget {0,1,2,unlimited} x server availability {reachable at once, after 1 refused attempt, (when that exhausts the first round) never again}; all interleavings up to the preemption bound; oracle: in-flight call completes, same Session value healthy again with its id, PostDial(isRedial) ran, indexed, later call succeeds -- or, budget exhausted: close notification, not indexed, later call fails with a connection error within one further round of dial attempts (attempts counted by the network shim)",
+		Assumptions: append([]string{"time.Sleep(redialInterval) is a yield; dial reachability is decided by the harness per attempt"}, baseAssumptions...),
+		Jobs: func(tier string) []Job {
+			var js []Job
+			for _, f := range []string{"idle", "rclose", "awaiting", "write", "both"} {
+				for _, b := range []string{"0", "1", "2", "-1"} {
+					for _, d := range []string{"0", "1", "3"} {
+						if b == "0" && d != "0" {
+							continue
+						}
+						j := sched("c13", "fault="+f+",budget="+b+",down="+d, 0, 1)
+						if tier == "thorough" {
+							j.Bound = 1
+							j.Shards = 4
+							j.Budget = 120
+						} else if b == "1" && (f == "idle" || f == "awaiting" || f == "both") && d != "3" {
+							j.Bound = 1
+							j.Shards = 4
+							j.Budget = 60
+						}
+						js = append(js, j)
+					}
+				}
+			}
+			return js
+		},
+	},
 }
